@@ -51,6 +51,8 @@ def errClassOf (kinds : List ErrKind) : String :=
     if parts.isEmpty then "multiple" else "multiple:" ++ "+".intercalate parts
 
 structure LoopOut where
+  /-- number of events that do not satisfy `LegalEvent` in the state they were delivered in (canonical order run) -/
+  illegal : Nat := 0
   verdict : String
   detail : Json := .null
   actions : List Action := []
@@ -179,9 +181,22 @@ def runLoopCaseWith (c : Json) (errCap : Nat) (fns : Fns) (full : Bool) : LoopOu
       ("all_winners", .arr (cands.map (fun c => Json.arr (c.winners.map (fun w => Json.arr #[.str w.1, encVal (canon w.2)])).toArray)).toArray),
       ("model_err", errClassOf (cd.errKinds.map (·.2)))], actions := cd.acts, final := some cd.s, candidates := maxCands }
 
+/-- how many events of the delivered history violate the provider contract `LegalEvent` (validation that the
+    hypothesis of `legal_history_never_panics` is met by the histories the harness generates) -/
+def countIllegal (c : Json) (errCap : Nat) (fns : Fns) : Nat := Id.run do
+  let some P := decPrepared (getObj c "prepared") errCap | return 0
+  let events := (getArr c "events").map decEvent
+  let mut s := LoopState.init P
+  let mut n := 0
+  for e in events do
+    if !(legalEvent P s e) then n := n + 1
+    s := (react P fns sortedOrder s e).1
+  return n
+
 /-- first the canonical processing order alone (cheap); the search over orders only when that does not explain the run -/
 def runLoopCase (c : Json) (errCap : Nat) (fns : Fns) : LoopOut :=
   let quick := runLoopCaseWith c errCap fns false
-  if quick.verdict == "diff" then runLoopCaseWith c errCap fns true else quick
+  let out := if quick.verdict == "diff" then runLoopCaseWith c errCap fns true else quick
+  if out.verdict == "ok" then { out with illegal := countIllegal c errCap fns } else out
 
 end Arca.Driver
